@@ -61,8 +61,8 @@ type refMode int
 
 const (
 	documented refMode = iota
-	// the one listed deviation (class wildcard-misses-implicit-test-label): `test` is only carried for the
-	// exact label `test`, wildcards do not see it
+	// the defect repaired by b32293a (class wildcard-misses-implicit-test-label): `test` was only carried for the
+	// exact label `test`, wildcards did not see it.  Kept so that its return is reported under its own name.
 	implicitExactOnly
 )
 
@@ -208,7 +208,7 @@ func refExpand(g []P, include, exclude []string, labels []L, needTests bool, mod
 	return out
 }
 
-// knownShape: the input shape of the listed finding - a test target, a wildcard label in some label group
+// knownShape: the input shape of the repaired defect b32293a - a test target, a wildcard label in some label group
 // whose stem is a prefix of "test", and no declared label of the target matched by that wildcard.
 func knownShape(t T, include, exclude []string) bool {
 	if !t.Test {
@@ -398,7 +398,7 @@ func genGroup(r *lib.Rng, t *T) string {
 }
 
 func genGroups(r *lib.Rng, t *T) []string {
-	n := lib.Pick(r, []int{0, 0, 1, 1, 1, 2, 2, 3})
+	n := lib.Pick(r, []int{0, 0, 0, 1, 1, 1, 2, 2, 3})
 	out := []string{}
 	for i := 0; i < n; i++ {
 		out = append(out, genGroup(r, t))
@@ -627,6 +627,28 @@ func main() {
 				c.Eval(rep, "replay", true)
 			}
 			return
+		}
+
+		// ---- 0. corpus: the witnesses of the defect repaired by b32293a (wildcard labels did not see the implicit
+		// `test` label), through ShouldInclude and through an expansion
+		for _, w := range []struct{ inc, exc []string }{
+			{[]string{"test*"}, nil}, {[]string{"te*"}, nil}, {[]string{"*"}, nil}, {nil, []string{"te*"}}, {nil, []string{"*"}},
+			{[]string{"go,tes*"}, nil}, {[]string{"test"}, []string{"test*"}},
+		} {
+			for _, ls := range [][]string{{}, {"go"}, {"tex"}} {
+				t := T{Name: "x_test", Labels: ls, Test: true}
+				inc, exc := append([]string{}, w.inc...), append([]string{}, w.exc...)
+				got := realTargetShould(t, inc, exc)
+				checkTarget(c, t, inc, exc, got)
+				c.Case(lib.App("CTarget", lib.StrList(t.Labels), lib.Bool(true), lib.StrList(inc), lib.StrList(exc), lib.Bool(got)),
+					map[string]any{"kind": "target", "target": t, "include": inc, "exclude": exc, "selected": got}, fmt.Sprint("w", ls, inc, exc), true)
+				in := input{Kind: "expand", Graph: []P{{Pkg: "p", Targets: []T{t, {Name: "lib", Labels: ls, Test: false}}}}, Include: inc, Exclude: exc,
+					Labels: []L{{"p", "all"}}}
+				out := realExpand(in)
+				checkExpansion(c, in, out)
+				in.Out = out
+				c.Case(lib.App("CExpand", coqGraph(in.Graph), lib.StrList(inc), lib.StrList(exc), coqLs(in.Labels), "false", coqLs(out)), in, fmt.Sprint("we", ls, inc, exc), true)
+			}
 		}
 
 		// ---- 1. exhaustive small space through BuildTarget.ShouldInclude (oracle), a slice of it to the model
@@ -858,7 +880,7 @@ func main() {
 					break
 				}
 			}
-			in := input{Kind: "expand", Graph: g, Include: genGroups(r, aim), Exclude: genExcludes(r, g, aim), Labels: genPseudo(r, g), NeedTests: r.Chance(1, 4)}
+			in := input{Kind: "expand", Graph: g, Include: genGroups(r, aim), Exclude: genExcludes(r, g, aim), Labels: genPseudo(r, g), NeedTests: r.Chance(1, 5)}
 			if !usable(in.Exclude) {
 				continue
 			}
